@@ -10,6 +10,9 @@ from .gen import write_job, generate, run_in_pkg
 NAMED = {"int": "Int", "enum": "Color", "ser": "Stamp", "native": "Day", "raw": "Raw", "input": "Leaf"}
 WRAP = {"T": "{}", "T!": "{}!", "[T]": "[{}]", "[T]!": "[{}]!", "[T!]": "[{}!]", "[T!]!": "[{}!]!", "[[T!]]": "[[{}!]]"}
 WIDX = {w: i for i, w in enumerate(WRAP)}
+# the default literal of a variable that declares one (kind, wrapper) -> (GraphQL literal, value the resolver then receives)
+DEFAULTS = {("int", "T"): ("77", 77), ("int", "[T!]"): ("[77, 78]", [77, 78]), ("enum", "T"): ("GREEN", "GREEN"),
+            ("enum", "[T!]"): ("[GREEN, RED]", ["GREEN", "RED"])}
 
 SCALARS_MOD = '''
 LOG = []
@@ -95,6 +98,11 @@ def build_project(cases, subscriptions=False):
         ops.append(f"query OpV_{k}($a: {t}) {{ echoV_{k}(a: $a) }}")
         ops.append(f"query OpF_{k}($i: FIn_{k}) {{ echoF_{k}(i: $i) }}")
         ops.append(f"query OpN_{k}($o: NOut_{k}) {{ echoN_{k}(o: $o) }}")
+        if (kind, w) in DEFAULTS and any(c.get("dflt") for c in cases):
+            lit = DEFAULTS[(kind, w)][0]
+            ops.append(f"query OpVD_{k}($a: {t} = {lit}) {{ echoV_{k}(a: $a) }}")
+            if subscriptions:
+                ops.append(f"subscription OpSVD_{k}($a: {t} = {lit}) {{ subV_{k}(a: $a) }}")
         if subscriptions:
             sfields.append(f"  subV_{k}(a: {t}): Boolean")
             sfields.append(f"  subF_{k}(i: FIn_{k}): Boolean")
